@@ -7,3 +7,9 @@ import J1939.Props.C07
 #print axioms J1939.Props.C07.c07_wf_notify
 #print axioms J1939.Props.C07.c07_wf_sendPgn
 #print axioms J1939.Props.C07.c07_timeouts_bounded
+#print axioms J1939.Props.C07.c07_22_wf_init
+#print axioms J1939.Props.C07.c07_22_wf_notify
+#print axioms J1939.Props.C07.c07_22_wf_sendPgn
+#print axioms J1939.Props.C07.c07_22_pass_ok
+#print axioms J1939.Props.C07.c07_22_history_wf
+#print axioms J1939.Props.C07.c07_22_never_raises_never_spins
